@@ -2969,3 +2969,42 @@ Q(name="e2_chunks_new_keeps_stream_on_error", props=["C11", "C06"], func=r"strea
   functions=["Chunks::new (HashMap entry / remove inlined from hashbrown)"], pre=lambda c: "true", post=chn_post,
   bounds="every state of the receive map and of the stream, every verdict of Assembler::ensure_ordering: the stream's receive state is taken out of the map only on the path that returns Ok (it travels inside the Chunks and is put back or freed by finalize); every refusal - unknown stream, stopped stream, an ordered read after unordered ones - leaves the map as it was, so the stream can still be read, stopped, credited and eventually freed",
   replay=("streams_illegal_ordered_read_native", lambda m: [dict(x=0)]))
+
+
+# ------------------------------------------------------------------ C03 / C06 / C16: the datagram receive queue is bounded in bytes AND in elements; the oldest go first, only when needed
+def dr_post(c, p):
+    st = p.p.state
+    DS = lambda n: "*_1.%d" % c.field("connection/datagrams.rs", "DatagramState", n)
+    n = c.inp("_2.0.1", BV64)                                   # Datagram { data: Bytes { ptr, len, .. } }
+    has_window = eq(c.inp("*_3#discr", I64), bv(1))
+    window = c.inp("*_3@Some.0", BV64)
+    push = [x for x in p.called(r"VecDeque.*::push_back") if x[1][0] == ("ref", DS("incoming"))]
+    drops = p.called(r"DatagramState::recv$")
+    if p.p.outcome == "stop":
+        # one more of the oldest is dropped - only because the bytes or the number of queued datagrams exceed the window
+        if len(drops) != 1 or push:
+            return "false"
+        snap = _Snap(st, drops[0][3])
+        over_bytes = "(bvugt (bvadd %s %s) %s)" % (n, c.ex.read_key(snap, DS("recv_buffered"), BV64).t, window)
+        over_count = "(bvugt %s %s)" % (c.ex.read_key(snap, DS("incoming") + ".1", BV64).t, window)      # VecDeque { head, len, buf }
+        return and_(has_window, ule(n, window), or_(over_bytes, over_count))
+    if p.p.outcome != "return":
+        return "true"
+    err = eq(c.ex.read_key(st, "_0#discr", I64).t, bv(1))
+    if not push:
+        return "false" if drops else and_(err, or_(not_(has_window), "(bvugt %s %s)" % (n, window)))
+    if len(push) != 1 or drops or push[0][1][1] != ("agg", "_2"):
+        return "false"
+    snap = _Snap(st, push[0][3])
+    queued = c.ex.read_key(snap, DS("incoming") + ".1", BV64).t
+    buffered = c.ex.read_key(snap, DS("recv_buffered"), BV64).t
+    # room for the new one in both respects, and it is accounted with its own length
+    return and_(not_(err), has_window, ule(queued, window), ule(buffered, window), ule("(bvadd %s %s)" % (c.inp(DS("recv_buffered"), BV64), n), window),
+                eq(buffered, "(bvadd %s %s)" % (c.inp(DS("recv_buffered"), BV64), n)))
+
+
+Q(name="e2_dgram_received_bounds", props=["C03", "C06", "C16"], func=r"datagrams\.rs:\d+:1: \d+:19>::received$",
+  allowed_panics=r"attempt to compute|handle_error|capacity_overflow|alloc", check_stop=True, loop_is_stop=True,
+  functions=["DatagramState::received (one iteration of each of its drop loops)"], pre=lambda c: "true", post=dr_post,
+  bounds="from an ARBITRARY queue state (any number of queued datagrams and buffered bytes): a datagram is refused exactly when receiving is disabled or it is larger than the window; it is appended only when, at that moment, buffered bytes + its length <= window AND the number of queued datagrams <= window (so the queue never holds more than window + 1 elements - datagrams without payload included - and never more than window bytes); each loop iteration drops exactly one datagram through recv() (oldest first) and only while one of the two bounds is exceeded; VecDeque::len read as the deque's length field",
+  replay=("dgram_received_count_native", lambda m: [dict(window=0, n=5), dict(window=2, n=50), dict(window=100, n=500)]))
